@@ -37,6 +37,7 @@ func GoEnv() []string {
 type Overlay struct {
 	Replace map[string]string // virtual -> real path
 	Pkgs    []string          // import paths of packages that contain harness files
+	Models  []string          // virtual paths that carry model files
 }
 
 // BuildOverlay assembles the overlay for a module: rt package, harness files, library models.
@@ -90,19 +91,30 @@ func BuildOverlay(verifRoot string, m Module, models []string) (*Overlay, error)
 		if _, err := os.Stat(emptyFile); err != nil {
 			os.WriteFile(emptyFile, []byte("package "+name+"\n"), 0o644)
 		}
+		var realFiles []string
 		for _, e := range ents {
 			n := e.Name()
-			if strings.HasSuffix(n, ".go") || strings.HasSuffix(n, ".s") {
+			if strings.HasSuffix(n, ".go") && !strings.HasSuffix(n, "_test.go") {
+				realFiles = append(realFiles, n)
 				ov.Replace[filepath.Join(real, n)] = emptyFile
 			}
 		}
+		sort.Strings(realFiles)
 		ments, err := os.ReadDir(mdir)
 		if err != nil {
 			return nil, fmt.Errorf("model %s: %v", model, err)
 		}
+		k := 0
 		for _, e := range ments {
 			if strings.HasSuffix(e.Name(), ".go") {
-				ov.Replace[filepath.Join(real, "zz_model_"+e.Name())] = filepath.Join(mdir, e.Name())
+				// the model file takes the place of an existing file of the package
+				// (the go command does not pick up overlay files added to module-cache directories)
+				if k >= len(realFiles) {
+					return nil, fmt.Errorf("model %s has more files than the package it replaces", model)
+				}
+				ov.Replace[filepath.Join(real, realFiles[k])] = filepath.Join(mdir, e.Name())
+				ov.Models = append(ov.Models, filepath.Join(real, realFiles[k]))
+				k++
 			}
 		}
 	}
@@ -142,7 +154,7 @@ func Load(verifRoot string, m Module, models []string, extraPkgs []string) (*Pro
 	var errs []string
 	packages.Visit(pkgs, nil, func(p *packages.Package) {
 		for _, e := range p.Errors {
-			errs = append(errs, e.Error())
+			errs = append(errs, p.PkgPath+": "+e.Error())
 		}
 	})
 	if len(errs) > 0 {
